@@ -25,7 +25,7 @@ FAULT_TEXT = {"lexer": "pub fn f() { let s = \"abc; }\n", "unclosed": "pub fn f(
               # an error the parser recovers from (it still returns a syntax tree): must fail all the same
               "recoverable": "pub fn f() { let x = 1 }\n"}
 LEX_FATAL = ("lexer", "blockcomment", "rawstring")     # rustc raises FatalError while creating the parser (caught since the repair of ParserBuilder::build)
-A_STYLES = ["file", "moddir", "pathattr"]
+A_STYLES = ["file", "moddir", "pathattr", "cfgattr"]
 B_STYLES = ["file", "moddir"]
 
 
@@ -43,6 +43,11 @@ def build_tree(d, a_style, b_style):
     elif a_style == "moddir":
         pos["first"], pos["grand"] = "a/mod.rs", "a/a1.rs"
         lib += "mod a;\n"
+    elif a_style == "cfgattr":
+        # the default file a.rs AND an alternative named by cfg_attr(.., path): both are parsed; a fault in the default
+        # file must not be forgiven because the alternative parses
+        pos["first"], pos["grand"] = "a.rs", "a/a1.rs"
+        lib += "#[cfg_attr(unix, path = \"alt/other_a.rs\")]\nmod a;\n"
     else:
         pos["first"], pos["grand"] = "other/aa.rs", "other/a1.rs"
         lib += "#[path = \"other/aa.rs\"]\nmod a;\n"
@@ -51,6 +56,8 @@ def build_tree(d, a_style, b_style):
     lib += "mod b;\n" + UNF % "x" + "cfg_if! {\n    if #[cfg(x)] {\n        mod c;\n    }\n}\n"
     files = {pos["root"]: lib, pos["first"]: UNF % "a" + "mod a1;\n", pos["grand"]: UNF % "a1",
              pos["last"]: UNF % "b", pos["cfgif"]: UNF % "c"}
+    if a_style == "cfgattr":
+        files["alt/other_a.rs"] = UNF % "alt"
     for rel, t in files.items():
         p = os.path.join(d, rel)
         os.makedirs(os.path.dirname(p), exist_ok=True)
@@ -204,9 +211,13 @@ def run(tier, seed, replay):
     cases = []
     for kind, position in kinds:
         styles = [(a, b) for a in A_STYLES for b in B_STYLES] if tier != "quick" else [(rnd.choice(A_STYLES), rnd.choice(B_STYLES))]
+        if tier == "quick" and position == "first" and kind in FAULT_TEXT:
+            styles = styles + [("cfgattr", rnd.choice(B_STYLES))]
         for a_style, b_style in styles:
-            if kind == "ambiguous" and position in ("first", "grand") and a_style == "pathattr":
+            if kind == "ambiguous" and position in ("first", "grand") and a_style in ("pathattr", "cfgattr"):
                 a_style = "file"        # a #[path] module has a single candidate
+            if kind == "missing" and position == "first" and a_style == "cfgattr":
+                a_style = "file"        # with an alternative file named by cfg_attr(path) a missing default file is not a fault
             for mode in MODES:
                 orders = ["bad_first", "ok_first"] if kind in ("bad_toml", "lexer", "unclosed", "blockcomment", "recoverable") and position == "root" else ["bad_first"]
                 for order in orders:
@@ -313,6 +324,27 @@ def run(tier, seed, replay):
         if t is not None and (t["rc"] != o["rc"] or t["after_k"] != o["after_k"] or t["after_o"] != o["after_o"]):
             viol("verbose_run_differs", dict(rp, rc_verbose=t["rc"]), "the --verbose run differs from the plain run in exit status or file states")
 
+    # ---- a fault in the DEFAULT file of a module that also has a cfg_attr(path) alternative, the module being the last one
+    # parsed (an error recorded earlier makes every later module fail anyway, which would hide a forgiven fault)
+    pd = os.path.join(base, "cfgattr_last")
+    for kname, ktext in FAULT_TEXT.items():
+        for mode in MODES:
+            shutil.rmtree(pd, ignore_errors=True)
+            os.makedirs(pd)
+            files = {"lib.rs": "#[cfg_attr(unix, path = \"unix.rs\")]\nmod plat;\n" + UNF % "x", "unix.rs": UNF % "u", "plat.rs": ktext}
+            for rel, t in files.items():
+                open(os.path.join(pd, rel), "w").write(t)
+            before = tree_files(pd)
+            pr = subprocess.run([exe] + MODES[mode] + ["lib.rs"], cwd=pd, env=env, stdout=subprocess.PIPE, stderr=subprocess.PIPE, timeout=60)
+            after = tree_files(pd)
+            rp = {"case": {"kind": "cfgattr_default_" + kname, "mode": mode}, "files": files, "rc": pr.returncode, "stderr": pr.stderr.decode("utf-8", "replace")[-400:]}
+            nontrivial.add("cfgattr_default_%s_%s" % (kname, mode))
+            if after != before:
+                viol("failing_root_modified", dict(rp, changed=sorted(k for k in after if after[k] != before.get(k))), "the default file of `#[cfg_attr(unix, path = ..)] mod plat;` has a fault (%s) but files of the crate were rewritten" % kname)
+            if pr.returncode != 1:
+                viol("failure_exit_status", rp, "fault %s in the default file of a module with a cfg_attr(path) alternative: exit status %d, expected 1" % (kname, pr.returncode))
+            if not pr.stderr.strip():
+                viol("no_diagnostic", rp, "fault %s in the default file of a module with a cfg_attr(path) alternative: nothing on stderr" % kname)
     # ---- model: run_main on the same trees; observed traces
     exprs = []
     obs_traces = []
@@ -384,6 +416,8 @@ def run(tier, seed, replay):
     acc_exprs = []
     if model is not None:
         for c, o2, m, seq in zip(cases, obs, model, obs_traces):
+            if c["a_style"] == "cfgattr":
+                continue          # the model's tree has no node for the cfg_attr alternative: judged by the oracle only
             mt, mexit = coqterm.plain(m)
             o = o2["plain"]
             if mexit != o["rc"]:
@@ -422,7 +456,7 @@ def run(tier, seed, replay):
         "evaluations": len(cases) * (2 if have_strace else 1),
         "distinct_nontrivial": len(nontrivial),
         "exhaustive": tier != "quick",
-        "rule": "fault kinds {unterminated string, unclosed delimiter, recoverable syntax error} x position {root, first child, last child, grandchild, inside cfg_if!}, unterminated block comment x {root, first child}, unterminated raw string x {root, grandchild}, {missing module file, both x.rs and x/mod.rs} x {first, last, grandchild, cfg_if}, a recoverable syntax error next to an `ignore`d sibling that has one too (both orders), bad rustfmt.toml, required_version mismatch, missing path, directory as input, disable_all_formatting with a syntax error, no fault; module layouts a in {a.rs, a/mod.rs, #[path]} x b in {b.rs, b/mod.rs} (quick: one random layout per fault, thorough: all); x {files, --check, --emit stdout}; a healthy second root (2 files) on the same command line, named after the failing one (and before it for bad rustfmt.toml / root syntax error); every run twice: plain (oracle: sha256 of every file, exit status, stderr, healthy root formatted, no partial file) and under strace --verbose (event trace). No input known that makes the rustc parser panic: PPanic is not exercised on the implementation. non-trivial = a fault is injected",
+        "rule": "fault kinds {unterminated string, unclosed delimiter, recoverable syntax error} x position {root, first child, last child, grandchild, inside cfg_if!}, unterminated block comment x {root, first child}, unterminated raw string x {root, grandchild}, {missing module file, both x.rs and x/mod.rs} x {first, last, grandchild, cfg_if}, a recoverable syntax error next to an `ignore`d sibling that has one too (both orders), every parse fault in the default file of a module that also has a cfg_attr(path) alternative and is the last module parsed, bad rustfmt.toml, required_version mismatch, missing path, directory as input, disable_all_formatting with a syntax error, no fault; module layouts a in {a.rs, a/mod.rs, #[path], a.rs with a cfg_attr(path) alternative} x b in {b.rs, b/mod.rs} (quick: one random layout per fault, thorough: all); x {files, --check, --emit stdout}; a healthy second root (2 files) on the same command line, named after the failing one (and before it for bad rustfmt.toml / root syntax error); every run twice: plain (oracle: sha256 of every file, exit status, stderr, healthy root formatted, no partial file) and under strace --verbose (event trace). No input known that makes the rustc parser panic: PPanic is not exercised on the implementation. non-trivial = a fault is injected",
         "samples": cases[:2] + cases[len(cases) // 2:len(cases) // 2 + 2] + cases[-1:],
         "correspondence_disagreements": len(disagreements),
         "traces_validated_against_impl": validated,
